@@ -8,6 +8,7 @@ package main
 import (
 	"bytes"
 	"context"
+	"errors"
 	"fmt"
 	"math"
 	"os"
@@ -83,6 +84,8 @@ func directedQuerySide(c *ctx, r Rng, which string) {
 		dirStoppedEngineComplete(c, r)
 		dirCloseWithBackedUpPipeline(c, r)
 		dirFaultAtEveryStoreCall(c, r)
+		dirCancelCause(c, r)
+		dirOpenInterruptedOnlyByCtx(c, r)
 	case "C21":
 		dirReadFailsAfterCancel(c, r)
 		dirCloseWithBackedUpPipeline(c, r)
@@ -1145,4 +1148,107 @@ func runChild(name string) (ok bool, output string) {
 	defer cancel()
 	out, err := exec.CommandContext(ctx, os.Args[0], "child", name).CombinedOutput()
 	return err == nil, string(out)
+}
+
+// dirCancelCause (C20): the Query context is one of the standard library's cause-carrying contexts
+// (WithCancelCause cancelled with a custom cause, WithTimeoutCause expiring). Cancellation is still reported as
+// cancellation: Err satisfies errors.Is(context.Canceled) resp. errors.Is(context.DeadlineExceeded).
+func dirCancelCause(c *ctx, r Rng) {
+	cause := errors.New("operator pressed stop")
+	for i := 0; i < 6; i++ {
+		env, _ := dirPop(pick(r, []int{1, 2}), 4, 3, 1)
+		eng := freshOver(env, "never")
+		var ctx context.Context
+		var trigger func()
+		want := context.Canceled
+		if i%2 == 0 {
+			cctx, cancel := context.WithCancelCause(context.Background())
+			ctx, trigger = cctx, func() { cancel(cause) }
+		} else {
+			tctx, cancel := context.WithTimeoutCause(context.Background(), 30*time.Millisecond, cause)
+			defer cancel()
+			ctx, trigger = tctx, func() { <-tctx.Done() }
+			want = context.DeadlineExceeded
+		}
+		q := pick(r, []*bs.Query{{}, bs.NewQuery().Token("needle").Build()})
+		res, err := eng.Query(ctx, q)
+		if err != nil {
+			continue
+		}
+		took := 0
+		for took < i/2 && res.Next() {
+			took++
+		}
+		trigger()
+		_, ok := drainWatch(res, 10*time.Second)
+		e1 := res.Err()
+		res.Close()
+		e2 := res.Err()
+		replay := map[string]any{"context": map[bool]string{true: "WithCancelCause(custom cause)", false: "WithTimeoutCause(30ms, custom cause)"}[i%2 == 0], "rows_before_cancel": took, "err": errStr(e1)}
+		c.r.Case(true, fmt.Sprint("cancel-cause", i))
+		c.r.Hit("directed.cancel-cause")
+		if !ok {
+			c.r.Add(Finding{Kind: "violation", Check: "next-never-false", Detail: "Next did not return false within 10s after the context ended", Replay: replay})
+			continue
+		}
+		if e1 == nil || !errors.Is(e1, want) {
+			c.r.Add(Finding{Kind: "violation", Check: "canceled-query-not-reported", Detail: fmt.Sprintf("the Query context (%s) ended before the final Next, ctx.Err() is %v, but Err() = %q does not report it (errors.Is is false)", replay["context"], want, errStr(e1)), Replay: replay})
+		}
+		if errStr(e1) != errStr(e2) {
+			c.r.Add(Finding{Kind: "violation", Check: "terminal-state-changed", Detail: fmt.Sprintf("Err changed after Close: %q -> %q", errStr(e1), errStr(e2)), Replay: replay})
+		}
+	}
+}
+
+// dirOpenInterruptedOnlyByCtx (C20): a DataStore whose OpenFile blocks until the context it was given ends (a
+// remote store). Close, and cancellation followed by Next, still reach the terminal state: the engine hands its
+// store calls a context that ends with the query.
+func dirOpenInterruptedOnlyByCtx(c *ctx, r Rng) {
+	for i := 0; i < 4; i++ {
+		env, _ := dirPop(pick(r, []int{1, 2}), 3, 3, 1)
+		eng := freshOver(env, "never")
+		env.Data.OpenRelease = make(chan struct{})
+		env.Data.OpenWaitsForCtx.Store(true)
+		ctx, cancel := context.WithCancel(context.Background())
+		q := pick(r, []*bs.Query{{}, bs.NewQuery().Token("needle").Build()})
+		res, err := eng.Query(ctx, q)
+		if err != nil {
+			cancel()
+			env.Data.OpenWaitsForCtx.Store(false)
+			continue
+		}
+		// wait until a worker is inside OpenFile
+		for w := 0; w < 200 && env.Data.OpensWaiting.Load() == 0; w++ {
+			time.Sleep(5 * time.Millisecond)
+		}
+		waiting := env.Data.OpensWaiting.Load() > 0
+		done := make(chan struct{})
+		go func() {
+			defer close(done)
+			if i%2 == 0 {
+				res.Close()
+			} else {
+				cancel()
+				for res.Next() {
+				}
+			}
+		}()
+		how := map[bool]string{true: "Close", false: "cancel, then Next"}[i%2 == 0]
+		replay := map[string]any{"ended_by": how, "worker_inside_OpenFile": waiting}
+		c.r.Case(waiting, fmt.Sprint("open-interrupted-by-ctx", i))
+		c.r.Hit("directed.open-interrupted-by-ctx." + b2s(waiting))
+		select {
+		case <-done:
+		case <-time.After(5 * time.Second):
+			c.r.Add(Finding{Kind: "violation", Check: "close-hangs", Detail: fmt.Sprintf("%s did not reach the terminal state within 5s while a worker was inside an OpenFile that returns only when its context ends: the store call was given a context that does not end with the query", how), Replay: replay})
+			close(env.Data.OpenRelease) // let the store give up so that the run can go on
+			select {
+			case <-done:
+			case <-time.After(5 * time.Second):
+			}
+		}
+		env.Data.OpenWaitsForCtx.Store(false)
+		res.Close()
+		cancel()
+	}
 }
